@@ -403,6 +403,15 @@ def _misc(h, g):
     h.setattr(E.at, "_console_version", cv)
     h.oblige("update_available / console_versions read the stored version message",
              And(h.eq(h.prop(E.at, "update_available").value, True), h.eq(h.prop(E.at, "console_versions").value, ["1.2.3"])))
+    from pyvc.world import SubscriberModel
+    s = SubscriberModel(E.w, "s")
+    h.method(E.at, "subscribe", s)
+    h.method(E.at, "subscribe", s)
+    h.oblige("subscribe twice registers the callable once, in the set the version update notifies", E.subs.added == [s])
+    h.method(E.at, "unsubscribe", s)
+    h.oblige("unsubscribe removes it (and only it)", And(E.subs.added == [], E.subs.removed == [s]))
+    r2 = h.method(E.at, "unsubscribe", SubscriberModel(E.w, "never-subscribed"))
+    h.oblige("unsubscribing a callable that was never subscribed is harmless", r2.ok)
 
 
 def _console_version_update(h, g):
@@ -690,8 +699,9 @@ def _register(g):
          trusted=["asyncio.wait_for(aw, t): returns when aw completes, or raises TimeoutError exactly t seconds after it started"])(lambda h: _init(h, g))
     oset(n + ".shutdown", ["C15"], [_fn(g, "shutdown")],
          trusted=["task.cancel(); await task leaves the task finished"])(lambda h: _shutdown(h, g))
-    oset(n + ".misc", ["C04", "C08", "C10", "C19"], [_fn(g, "check_for_updates"), _fn(g, "__init__"), _fn(g, "model"), _fn(g, "host"),
-                                                      _fn(g, "update_available"), _fn(g, "console_versions")])(lambda h: _misc(h, g))
+    oset(n + ".misc", ["C04", "C08", "C10", "C12", "C19"], [_fn(g, "check_for_updates"), _fn(g, "__init__"), _fn(g, "model"), _fn(g, "host"),
+                                                             _fn(g, "update_available"), _fn(g, "console_versions"), _fn(g, "airtouch_id"),
+                                                             _fn(g, "serial"), _fn(g, "name"), _fn(g, "subscribe"), _fn(g, "unsubscribe")])(lambda h: _misc(h, g))
     oset(n + "._process_console_version_update", ["C10", "C12"], [_fn(g, "_process_console_version_update")])(lambda h: _console_version_update(h, g))
     oset(n + ".dispatch", ["C10", "C09"], [_fn(g, "_process_ac_status_message"), _fn(g, "_process_ac_timer_status_message"),
                                            _fn(g, G["p_zstatus"]), _fn(g, "_process_ac_error_info_message")],
